@@ -1,29 +1,31 @@
-import Tahoe.Happiness.LemmasPlacement2
+import Tahoe.Happiness.LemmasSpread2
 import Tahoe.Happiness.Selector
 /-!
 C07 — share placement is complete, respects read-only servers, maximizes spread.
 
 Model: `Tahoe/Happiness/Placement.lean` (transcription of `share_placement` and all helpers of
-`immutable/happiness_upload.py` on top of the flow model of C08), with two switches:
-`Cfg.asIs` is the code in the repository, `Cfg.fixed` the code after `fixes/C07-indexedshares.diff`
-and `fixes/C07-dropped-peer.diff`.
+`immutable/happiness_upload.py` on top of the flow model of C08) with two switches: `Cfg.asIs` is
+the code before `fixes/C07-indexedshares.diff` / `fixes/C07-dropped-peer.diff`, `Cfg.fixed` the
+code after them (now in the repository); `Tahoe/Happiness/Selector.lean` (`PeerSelector`, the
+caller, as a state machine).  Helper lemmas: `Tahoe/Happiness/LemmasPlacement*.lean`,
+`LemmasInner.lean`, `LemmasSpread*.lean`.
 
-Full-strength statements (for at least one writable peer, writable and read-only peers disjoint,
-existing shares only on those peers and only for share numbers to be placed):
-* `placement_total`: `sharePlacement cfg W R S E = .ok res → ∀ s ∈ S, ∃ p, (s, p) ∈ res ∧ (p ∈ W ∨ p ∈ R)`
-* `readonly_only_existing`: `… → ∀ (s, p) ∈ res, p ∈ R → s ∈ dget E p`
-* `spread_maximal`: `… → number of distinct peers in res = max over all total placements that satisfy
-  the read-only clause` (= maximum matching number of the relation "writable peer × any share,
-  read-only peer × share it holds").
-On the model of the repository's code the second and third are FALSE (counterexamples below,
-reproduced on the real code by `harness/props/c07.py`).  Over `Cfg.fixed` the first two are proved
-at full strength for all inputs; of `spread_maximal` only the per-phase part is proved
-(`spread_maximal_partial`: every one of the three `_calculate_mappings` phases ends with a
-*maximum* matching of its flow network, via the C08 theory).  Missing for the full statement: the
-composition argument that read-only-first / existing-second / fresh-third plus the homeless
-distribution reaches the global optimum `min(|M_ro| + |W|, |S|)`; it is checked by the harness
-monitor exhaustively on small scopes and on seeded layouts.
-Helper lemmas: `Tahoe/Happiness/LemmasPlacement*.lean`, `LemmasInner.lean`.
+## Coverage of the statement
+
+| clause of the statement | theorem(s) over the model |
+|---|---|
+| "for any set of writable servers (at least one), read-only servers and pre-existing shares" | hypotheses `W ≠ []`, `∀ x ∈ W, x ∉ R`; inputs are arbitrary lists (any order, duplicates allowed: the model normalises them as `set(...)` does) |
+| "the planned placement assigns every share number to a server" | `placement_total` (every share is a key, its server is in `W ∪ R`), `placement_returns` (a result is returned: no spinning round-robin) |
+| "assigns a read-only server only shares it already holds" | `readonly_only_existing`; for the plans of a selector history `plan_readonly_only_existing` |
+| "spreads shares over the largest number of distinct servers achievable under those constraints" | `spread_maximal` (no placement respecting the read-only clause uses more distinct servers), `spread_ge_matching` (same against every server/share matching), `phase_is_maximum_matching` (each phase is a maximum matching of its network) |
+| "so an upload is never declared unhappy when a happy layout was reachable" | the plan part is the line above; the allocation loop of `Tahoe2ServerSelector.get_shareholders` that consumes the plan is **monitor only** (`harness/props/c07.py` `run_grid`: real selection on the in-process grid with a failing server); the plan the loop sees is fresh: `plan_is_fresh`, `state_ignores_gets` |
+| (code before the repairs) | `readonly_only_existing_counterexample`, `shared_indexedShares_row`, `spread_maximal_counterexample`, `spread_maximal_counterexample_after_first_fix`: clauses 2 and 3 are false of `Cfg.asIs` |
+
+Not covered by theorems: existing-share entries of servers in neither set (bad servers) and share
+numbers outside the shares to place (outside the statement's domain; on such inputs the code may
+hand a share to a bad server, e.g. `share_placement({'w0'},{},{0,1},{'b0':{1}})` gives `{1:'b0'}`);
+iteration order of sets of ids ≥ 8 (the theorems hold for the model's ascending order; the three
+clauses are order-independent statements and are monitored on byte-string ids).
 -/
 namespace Tahoe.C07
 open Tahoe.Happiness
@@ -111,11 +113,53 @@ theorem readonly_only_existing (W R S : List Nat) (E : SetMap) (res : List (Nat 
 
 example : ([0, 1] : List Nat) ≠ [] ∧ ∀ x ∈ ([0, 1] : List Nat), x ∉ ([2, 3] : List Nat) := by decide
 
-/-- **spread_maximal (partial)**: each `_calculate_mappings` phase of the repaired code ends with
+/-- **spread_maximal**: no placement `A` (any list of `(share, server)` with distinct shares — total or
+not) that puts shares to place on given servers and gives a read-only server only shares it holds
+uses more distinct servers than the placement returned by the repaired `share_placement`.
+(`Holds E p s`: `s ∈ E[p]`; by `placement_total` and `readonly_only_existing` the returned
+placement is itself such an `A`, so its spread is the maximum.) -/
+theorem spread_maximal (W R S : List Nat) (E : SetMap) (res : List (Nat × Nat)) (hW : W ≠ [])
+    (hdisj : ∀ x ∈ W, x ∉ R) (h : sharePlacement Cfg.fixed W R S E = .ok res)
+    (A : List (Nat × Nat)) (hkeys : (A.map (·.1)).Nodup)
+    (hA : ∀ e ∈ A, e.1 ∈ S ∧ (e.2 ∈ W ∨ (e.2 ∈ R ∧ Holds E e.2 e.1))) :
+    distinctServers A ≤ distinctServers res := by
+  obtain ⟨Mo, h1, h2, h3⟩ := placement_has_matching A hkeys
+  rw [← h3]
+  exact spread_ge_matching W R S E res hW hdisj h Mo h1 (fun e he => hA (e.2, e.1) (h2 e he))
+
+/-- a competing placement on three servers for the layout `W={0,1}`, `R={2}`, `2` holds share 0:
+it meets the hypotheses of `spread_maximal`, and the model's placement also uses three servers -/
+example : (([(0, 2), (1, 0), (2, 1)] : List (Nat × Nat)).map (·.1)).Nodup ∧
+    (∀ e ∈ ([(0, 2), (1, 0), (2, 1)] : List (Nat × Nat)),
+      e.1 ∈ [0, 1, 2] ∧ (e.2 ∈ [0, 1] ∨ (e.2 ∈ [2] ∧ (dget [(2, mkSet [0])] e.2).contains e.1))) ∧
+    distinctServers [(0, 2), (1, 0), (2, 1)] = 3 ∧
+    sharePlacement Cfg.fixed [0, 1] [2] [0, 1, 2] [(2, [0])] = .ok [(0, 2), (1, 0), (2, 1)] := by
+  decide
+
+/-- the same against matchings: the returned placement uses at least as many distinct servers as
+any matching of servers to shares (writable: any share; read-only: a share it holds) -/
+theorem spread_ge_matching (W R S : List Nat) (E : SetMap) (res : List (Nat × Nat)) (hW : W ≠ [])
+    (hdisj : ∀ x ∈ W, x ∉ R) (h : sharePlacement Cfg.fixed W R S E = .ok res)
+    (Mo : List (Nat × Nat)) (hMo : Matching Mo)
+    (hedge : ∀ e ∈ Mo, e.2 ∈ S ∧ (e.1 ∈ W ∨ (e.1 ∈ R ∧ Holds E e.1 e.2))) :
+    Mo.length ≤ distinctServers res :=
+  Tahoe.Happiness.spread_ge_matching W R S E res hW hdisj h Mo hMo hedge
+
+example : Matching [(2, 0), (0, 1)] ∧ Holds [(2, [0])] 2 0 := by
+  refine ⟨?_, by unfold Holds; decide⟩
+  unfold Matching; simp
+
+/-- for a dict (distinct keys) `Holds` is "some entry of `E` for `p` lists `s`" -/
+theorem holds_iff_entry (E : SetMap) (hk : (E.map (·.1)).Nodup) (p s : Nat) :
+    Holds E p s ↔ ∃ x ∈ E, x.1 = p ∧ s ∈ x.2 := holds_iff E hk p s
+
+example : ([(2, [0]), (3, [1])].map (·.1)).Nodup := by decide
+
+/-- **phase_is_maximum_matching**: each `_calculate_mappings` phase of the repaired code ends with
 a maximum matching `M` of its flow network (servers `1..|peers|`, share vertices after them): the
 value stored for a share is `None` iff the share is unmatched in `M`, and the matched server
 otherwise; no matching of the network's server/share edges is larger than `M`. -/
-theorem spread_maximal_partial (peers shares : List Nat) (sm : SetMap) (hp : peers.Nodup)
+theorem phase_is_maximum_matching (peers shares : List Nat) (sm : SetMap) (hp : peers.Nodup)
     (hs : shares.Nodup) (hrows : ∀ p, (dget sm p).Nodup) :
     ∃ M : List (Nat × Nat), Matching M ∧
       (∀ e ∈ M, 1 ≤ e.1 ∧ e.1 ≤ peers.length ∧ e.2 ∈ adj (cmGraph peers shares sm) e.1) ∧
